@@ -638,6 +638,193 @@ func (rn *c30Runner) verdict(sc c30Scenario, e *c30Exec) (sig, desc, outcome str
 	return "", "", outcome
 }
 
+// ---- retry exhaustion: a controlled rival wins the race k times in a row -------------------
+//
+// The embedded backend re-runs a read-modify-write command whose commit lost an
+// optimistic-concurrency race (embeddedBackend.update, 1+maxConflictRetries attempts).
+// Two or three one-shot clients can make a command lose at most twice, so this family
+// drives ONE victim command and, while it is parked right after taking its snapshot
+// (txn.begin), lets a rival connection commit to the same key: the victim's attempt is
+// then doomed. For every k in 0..maxConflictRetries+2 the rival wins the first k attempts
+// (only prefixes exist: an attempt that is not beaten commits and ends the command), so
+// "succeeds after k lost attempts" and "gives up after all attempts" are both covered
+// deterministically. Everything is sequential in real time (the rival's reply arrives
+// before the victim is resumed), so the oracle is exact.
+
+type c30Victim struct {
+	Name    string
+	Initial string
+	Cmd     []string // the victim command ("K" = key)
+	Rival   []string // the rival's command, committed once per beaten attempt
+}
+
+func c30Victims() []c30Victim {
+	return []c30Victim{
+		{"exhaust/incr", "", []string{"INCR", "K"}, []string{"INCRBY", "K", "1000"}},
+		{"exhaust/decrby3@7", "7", []string{"DECRBY", "K", "3"}, []string{"INCRBY", "K", "1000"}},
+		{"exhaust/incrby5-vs-set@1", "1", []string{"INCRBY", "K", "5"}, []string{"SET", "K", "#"}},
+		{"exhaust/setxx@a", "a", []string{"SET", "K", "victim", "XX"}, []string{"SET", "K", "#"}},
+		{"exhaust/del@a", "a", []string{"DEL", "K"}, []string{"SET", "K", "#"}},
+	}
+}
+
+// exhaust runs victim v with the rival winning the first k attempts; it returns the number
+// of attempts the victim made and the verdict.
+func (rn *c30Runner) exhaust(v c30Victim, k int) (attempts int, sig, desc, outcome string, trace []string) {
+	sc := c30Scenario{Name: v.Name, Initial: v.Initial, Cmds: [][]string{v.Cmd}, Points: []string{"txn.begin"}}
+	e := rn.newExec(sc)
+	defer e.close()
+	t := e.threads[0]
+	// model of the key: numeric counter or plain string, driven only by ACKNOWLEDGED commands
+	val, present := v.Initial, v.Initial != ""
+	var ackedInts []string
+	apply := func(cmd []string, rep vrespReply) {
+		switch strings.ToUpper(cmd[0]) {
+		case "INCR", "DECR", "INCRBY", "DECRBY":
+			if rep.Kind != ':' {
+				return // an error reply must leave no effect
+			}
+			d := int64(1)
+			switch strings.ToUpper(cmd[0]) {
+			case "DECR":
+				d = -1
+			case "INCRBY":
+				d, _ = strconv.ParseInt(cmd[2], 10, 64)
+			case "DECRBY":
+				d, _ = strconv.ParseInt(cmd[2], 10, 64)
+				d = -d
+			}
+			cur := int64(0)
+			if present {
+				cur, _ = strconv.ParseInt(val, 10, 64)
+			}
+			val, present = strconv.FormatInt(cur+d, 10), true
+			ackedInts = append(ackedInts, strings.TrimSpace(rep.Raw))
+		case "SET":
+			if rep.Raw == "+OK\r\n" {
+				val, present = cmd[2], true
+			}
+		case "DEL":
+			if rep.Kind == ':' && rep.Int > 0 {
+				val, present = "", false
+			}
+		}
+	}
+	wins := 0
+	e.step(0)
+	for !t.done {
+		if t.parked != "txn.begin" {
+			vr.Fatalf("c30 exhaust: victim parked at %q", t.parked)
+		}
+		attempts++
+		if wins < k {
+			// rival: a complete command on another connection, between the victim's
+			// snapshot and its commit. "#" is replaced by a value unique to this win.
+			args := make([]string, len(v.Rival))
+			for i, a := range v.Rival {
+				switch a {
+				case "K":
+					args[i] = e.key
+				case "#":
+					args[i] = strconv.Itoa(100 + wins)
+				default:
+					args[i] = a
+				}
+			}
+			rep := e.admin.do(args...)
+			if rep.Kind == '-' {
+				vr.Fatalf("c30 exhaust: uncontended rival %v failed: %s", args, rep.Str)
+			}
+			model := append([]string{}, args...)
+			model[1] = "K"
+			apply(model, rep)
+			wins++
+			e.trace = append(e.trace, fmt.Sprintf("rival:%s->%s", strings.Join(v.Rival, " "), strings.TrimSpace(rep.Raw)))
+		}
+		e.step(0)
+		if attempts > maxConflictRetries+8 {
+			vr.Fatalf("c30 exhaust: victim still retrying after %d attempts", attempts)
+		}
+	}
+	apply(v.Cmd, t.reply) // the victim's reply arrives last in real time
+	final := e.admin.do("GET", e.key)
+	dc := "unknown"
+	if rn.g.opts != nil {
+		dc = strconv.FormatBool(rn.g.opts.DetectConflicts)
+	}
+	kind := "int"
+	switch {
+	case t.reply.Kind == '-':
+		kind = "error"
+	case t.reply.Kind == '+':
+		kind = "ok"
+	case t.reply.Kind == '_':
+		kind = "nil"
+	}
+	outcome = fmt.Sprintf("%s k=%d attempts=%d victim=%s", v.Name, k, attempts, kind)
+	got, gotPresent := final.Str, final.Kind == '$'
+	if gotPresent != present || (present && got != val) {
+		w := "absent"
+		if present {
+			w = strconv.Quote(val)
+		}
+		g := "absent"
+		if gotPresent {
+			g = strconv.Quote(got)
+		}
+		sig = fmt.Sprintf("ack-without-effect scenario=%s rival_wins=%d attempts=%d victim_reply=%s deployed_detect_conflicts=%s", v.Name, wins, attempts, kind, dc)
+		desc = fmt.Sprintf("victim %v lost %d attempt(s) to a rival commit and finally replied %q, but the key ends as %s while the acknowledged commands (rival x%d, then the victim) give %s",
+			v.Cmd, wins, strings.TrimSpace(t.reply.Raw), g, wins, w)
+	}
+	seen := map[string]bool{}
+	for _, a := range ackedInts {
+		if seen[a] && sig == "" {
+			sig = fmt.Sprintf("duplicate-ack scenario=%s rival_wins=%d attempts=%d deployed_detect_conflicts=%s", v.Name, wins, attempts, dc)
+			desc = fmt.Sprintf("two acknowledged increments of one counter replied the same value %s (replies %v)", a, ackedInts)
+		}
+		seen[a] = true
+	}
+	return attempts, sig, desc, outcome, e.trace
+}
+
+func (rn *c30Runner) exploreExhaust(r *vr.Run) {
+	idx := 0
+	for _, v := range c30Victims() {
+		for k := 0; k <= maxConflictRetries+2; k++ {
+			idx++
+			if !rn.shard.Owns(idx) {
+				continue
+			}
+			if r.Expired() {
+				rn.p.TimedOut = true
+				return
+			}
+			attempts, sig, desc, outcome, trace := rn.exhaust(v, k)
+			rn.p.Add("executions", 1)
+			rn.p.Add("exhaust_runs", 1)
+			rn.p.Add("steps", int64(attempts+k+1))
+			rn.p.Max("max_attempts_of_one_command", int64(attempts))
+			rn.p.Mark("outcomes", outcome)
+			rn.p.Mark("schedules", fmt.Sprintf("%s k=%d", v.Name, k))
+			rn.p.Mark("states", v.Name+"|"+strings.Join(trace, " "))
+			if k == maxConflictRetries+1 {
+				rn.p.Sample(fmt.Sprintf("%s: rival wins all %d attempts: %s", v.Name, attempts, outcome))
+			}
+			if sig != "" {
+				for i := 0; i < 2; i++ { // must fail identically from scratch
+					_, sig2, _, _, _ := rn.exhaust(v, k)
+					rn.p.Add("validated", 1)
+					if sig2 != sig {
+						vr.Fatalf("c30 exhaust: %s k=%d is not reproducible (%q vs %q)", v.Name, k, sig, sig2)
+					}
+				}
+				rp, _ := json.Marshal(c30Replay{Scenario: v.Name, Schedule: []int{k}, Trace: trace})
+				rn.p.Viol(sig, desc+"\n  schedule: "+strings.Join(trace, " "), string(rp))
+			}
+		}
+	}
+}
+
 // explore enumerates every schedule of sc below the given root prefixes.
 func (rn *c30Runner) explore(r *vr.Run, sc c30Scenario) {
 	// root prefixes of length 3 are distributed over the shards (every client has >= 2
@@ -723,6 +910,16 @@ func TestVerifC30(t *testing.T) {
 		wu := rn.g.dial()
 		wu.do("SET", "c30:warmup", "1")
 		_ = wu.conn.Close()
+		for _, v := range c30Victims() {
+			if v.Name != rp.Scenario || len(rp.Schedule) != 1 {
+				continue
+			}
+			attempts, sig, desc, outcome, trace := rn.exhaust(v, rp.Schedule[0])
+			fmt.Printf("replay: %s rival wins %d, victim made %d attempts\n  %s\n  %s\n", v.Name, rp.Schedule[0], attempts, strings.Join(trace, " "), outcome)
+			if sig != "" {
+				r.Violation(sig, desc, rp)
+			}
+		}
 		for _, sc := range append(c30Scenarios(true), c30RaftScenarios(true)...) {
 			if sc.Name != rp.Scenario {
 				continue
@@ -757,6 +954,7 @@ func TestVerifC30(t *testing.T) {
 		for _, sc := range scs {
 			rn.explore(r, sc)
 		}
+		rn.exploreExhaust(r)
 		if sh.Index == 0 && g.opts != nil {
 			p.Add("deployed_detect_conflicts", map[bool]int64{false: 0, true: 1}[g.opts.DetectConflicts])
 		}
@@ -780,11 +978,14 @@ func TestVerifC30(t *testing.T) {
 	for _, sc := range append(scs, c30RaftScenarios(r.Thorough())...) {
 		names = append(names, fmt.Sprintf("%s(points=%d)", sc.Name, len(sc.Points)))
 	}
+	for _, v := range c30Victims() {
+		names = append(names, fmt.Sprintf("%s(rival wins k=0..%d consecutive attempts)", v.Name, maxConflictRetries+2))
+	}
 	r.Finish(vr.Coverage{
 		Level:       "model_checking",
 		Evaluations: c["executions"],
 		Distinct:    total.Card("schedules"),
-		Rule:        "all interleavings of 2-3 concurrent client commands at transaction-step granularity (embedded: coarse cooperative scheduling at verifhook points txn.begin / txn.get / txn.commit.tsAssigned / txn.commit.applied inside the real main()+handleConn+DB; raft-backed: at every TSO / BatchGet / Mutate call the real raftBackend makes into a harness-owned Percolator-contract store), every schedule executed from scratch on a fresh key; a state is a distinct trace of (client, step, reply)",
+		Rule:        "all interleavings of 2-3 concurrent client commands at transaction-step granularity (embedded: coarse cooperative scheduling at verifhook points txn.begin / txn.get / txn.commit.tsAssigned / txn.commit.applied inside the real main()+handleConn+DB; raft-backed: at every TSO / BatchGet / Mutate call the real raftBackend makes into a harness-owned Percolator-contract store), every schedule executed from scratch on a fresh key; plus the retry-exhaustion family: one victim command (INCR / DECRBY / INCRBY / SET XX / DEL) parked after each snapshot while a rival connection commits to its key, for every number k = 0..maxConflictRetries+2 of consecutive lost attempts; a state is a distinct trace of (client, step, reply)",
 		Samples:     total.SamplesAny(),
 		States:      total.Card("states"),
 		Transitions: c["steps"],
@@ -792,7 +993,8 @@ func TestVerifC30(t *testing.T) {
 		Exhaustive:  !total.TimedOut,
 		Outcomes:    outcomes,
 		Bounds:      map[string]any{"scenarios": names, "clients": "2-3", "commands_per_client": 1},
-		Extra:       map[string]any{"deployed_detect_conflicts": c["deployed_detect_conflicts"] == 1, "violating_schedules_rerun_twice": c["validated"] / 2},
+		Extra: map[string]any{"deployed_detect_conflicts": c["deployed_detect_conflicts"] == 1, "violating_schedules_rerun_twice": c["validated"] / 2,
+			"retry_exhaustion_runs": c["exhaust_runs"], "max_attempts_of_one_command": c["max_attempts_of_one_command"], "max_conflict_retries_const": maxConflictRetries},
 		Assumptions: []string{"code between two scheduling points runs atomically (coarse mode): the read of a transaction is determined by its snapshot, the conflict check + timestamp assignment are atomic under the oracle lock",
 			"a client that has not taken its snapshot is treated as not enabled while another client is parked between commit-timestamp assignment and commit completion (oracle.readTs waits there); a wrong blocking model would surface as a harness error through the step guard",
 			"one long-lived main() per worker process, fresh key per schedule, one warm-up write so timestamps are non-zero",
